@@ -21,7 +21,7 @@ struct Obs {
 }
 
 impl Observer for Obs {
-    fn needs_snap(&self, _a: exec::Actor, _op: &Op) -> bool {
+    fn needs_snap(&self, _a: exec::Actor, _op: &Op, _s: &Screen) -> bool {
         false
     }
     fn step(&mut self, _ctx: &StepCtx) -> Result<(), Violation> {
